@@ -57,6 +57,8 @@ def run(env, world):
 def signature(world, v, failures):
     if v["label"] == "C08:scheduler-finished-row-unplaced":
         return "scheduler-finished-row-always-reports-zero-unplaced"
+    if v["label"] == "C08:reader-accepts-trace" and "[unfinished-graph-with-cancelled-branch" in str(v.get("info")):
+        return "reader-rejects-trace-of-run-that-ends-with-an-unfinished-graph-that-has-a-cancelled-branch"
     return v["label"]
 
 
